@@ -855,6 +855,35 @@ func (e *fnEnc) countHit(c *ssa.CallCommon, instr ssa.Instruction) {
 
 // siteOrdinal numbers the call sites of one callee name by source position (k-th call to name in the
 // function text), independent of block layout.
+// allSiteNames: every "NAME#k" a site clause of this function could name (the same naming as siteAsserts).
+func (e *fnEnc) allSiteNames() map[string]bool {
+	out := map[string]bool{}
+	for _, b := range e.fn.Blocks {
+		for _, in := range b.Instrs {
+			ci, ok := in.(ssa.CallInstruction)
+			if !ok {
+				continue
+			}
+			c := ci.Common()
+			var names []string
+			if fn := e.staticCallee(c); fn != nil {
+				names = append(names, fn.Name(), fn.String())
+				if fn.Pkg != nil {
+					names = append(names, fn.RelString(fn.Pkg.Pkg))
+				}
+			} else if c.IsInvoke() {
+				names = append(names, c.Method.Name())
+			} else if bi, ok := c.Value.(*ssa.Builtin); ok {
+				names = append(names, bi.Name())
+			}
+			for _, n := range names {
+				out[fmt.Sprintf("%s#%d", n, e.siteOrdinal(in, n))] = true
+			}
+		}
+	}
+	return out
+}
+
 func (e *fnEnc) siteOrdinal(instr ssa.Instruction, name string) int {
 	if e.siteOrd == nil {
 		e.siteOrd = map[ssa.Instruction]map[string]int{}
